@@ -64,6 +64,8 @@ struct Case {
     short: bool,
     /// `shutdown_timeout` of 1 ns: the deadline test of the final drain (every 32 entries) always fires
     tiny: bool,
+    /// the stream's `flush` calls and in-band report entries fail too (every error kind in turn)
+    fail_others: bool,
     ops: Vec<Op>,
 }
 
@@ -138,9 +140,10 @@ impl Op {
 impl Case {
     fn encode(&self) -> String {
         format!(
-            "script {}{} {}",
+            "script {}{}{} {}",
             if self.short { 1 } else { 0 },
             if self.tiny { "t" } else { "" },
+            if self.fail_others { "e" } else { "" },
             self.ops.iter().map(|o| o.enc()).collect::<Vec<_>>().join(" ")
         )
     }
@@ -149,7 +152,12 @@ impl Case {
         if it.next()? != "script" {
             return None;
         }
-        let (short, tiny) = match it.next()? {
+        let mode = it.next()?;
+        let (mode, fail_others) = match mode.strip_suffix('e') {
+            Some(m) => (m, true),
+            None => (mode, false),
+        };
+        let (short, tiny) = match mode {
             "0" => (false, false),
             "1" => (true, false),
             "0t" => (false, true),
@@ -157,7 +165,7 @@ impl Case {
             _ => return None,
         };
         let ops: Option<Vec<Op>> = it.map(Op::dec).collect();
-        let c = Case { short, tiny, ops: ops? };
+        let c = Case { short, tiny, fail_others, ops: ops? };
         if c.valid() { Some(c) } else { None }
     }
     /// well-formed: starts with `new` (cap ≥ 1), handles referenced are live, a live handle exists for
@@ -381,7 +389,7 @@ fn gen_case_plain(rng: &mut Rng, p: &Profile) -> Case {
             }
             let h = *rng.pick(&lives);
             let r = if rng.below(100) < p.err_pct {
-                if rng.chance(1, 2) { Res::Validation } else { Res::Io }
+                if rng.chance(1, 2) { Res::Validation } else { *rng.pick(&IO_KINDS) }
             } else {
                 Res::Ok
             };
@@ -446,7 +454,7 @@ fn gen_case_plain(rng: &mut Rng, p: &Profile) -> Case {
             join_held = false;
         }
     }
-    Case { short, tiny, ops }.finished()
+    Case { short, tiny, fail_others: rng.chance(1, 4), ops }.finished()
 }
 
 /// Directed scenario scripts: the writer is parked at a chosen program point with the flush gate
@@ -459,12 +467,13 @@ fn gen_case_plain(rng: &mut Rng, p: &Profile) -> Case {
 ///  F. a second flush request collected by the call that completes the first one, > 32 entries ahead of it,
 ///     the next drain cut by the deadline at 32 entries;
 ///  G. the writer held inside its end-of-cycle recorder callback, appends + drop(join) in that window;
+///  H. a flush batch completed by the countdown on a deadline-terminated drain, its stream flush held at the gate;
 ///  D. `shutdown_timeout` expiring inside the final drain at 31 / 32 / 33 / 64 pending entries
 ///     (join-handle, forgotten-handle and last-handle-dropped shutdowns).
 fn gen_directed(rng: &mut Rng) -> Case {
     let res = |rng: &mut Rng| match rng.below(6) {
         0 => Res::Validation,
-        1 => Res::Io,
+        1 => *rng.pick(&IO_KINDS),
         _ => Res::Ok,
     };
     let mut ops;
@@ -473,7 +482,39 @@ fn gen_directed(rng: &mut Rng) -> Case {
     let mut tiny = false;
     // how the shutdown starts: 0 = drop(join), 1 = forget + last handle dropped, 2 = last handle dropped, join held
     let how = rng.below(3);
-    match rng.below(6) {
+    match rng.below(7) {
+        6 => {
+            // H: a flush batch finishes by the countdown reaching 0 on a deadline-terminated drain (the ring was
+            // full of pre-request entries when the request was picked up and is never seen empty); the flush
+            // gate holds the stream flush that must precede the wake-up
+            short = true;
+            let laps = rng.range(1, 2) as usize; // capacity 32 or 64
+            let cap = 32 * laps;
+            ops = vec![Op::New(cap)];
+            for _ in 0..cap + 1 {
+                ops.push(Op::Append(0, res(rng)));
+            }
+            ops.push(Op::Flush);
+            ops.push(Op::Sleep);
+            ops.push(Op::Gate(32));
+            // refill: the writer holds one entry, the ring gets the rest
+            for _ in 0..31 {
+                ops.push(Op::Append(0, Res::Ok));
+            }
+            for lap in 0..laps {
+                if lap + 1 == laps {
+                    ops.push(Op::Fclose);
+                }
+                ops.push(Op::Sleep);
+                ops.push(Op::Gate(32));
+                if lap + 1 < laps {
+                    for _ in 0..32 {
+                        ops.push(Op::Append(0, Res::Ok));
+                    }
+                }
+            }
+            ops.push(Op::Fopen);
+        }
         4 => {
             // F: a flush request F2 arrives, with > 32 entries appended before it, while the writer is inside
             // the stream flush that completes F1; the next drain pass is cut by the deadline at 32 entries:
@@ -655,7 +696,7 @@ fn gen_directed(rng: &mut Rng) -> Case {
             }
         }
     }
-    let c = Case { short, tiny, ops };
+    let c = Case { short, tiny, fail_others: rng.chance(1, 4), ops };
     debug_assert!(c.valid(), "{}", c.encode());
     c.finished()
 }
@@ -829,6 +870,7 @@ fn run_guided(case: &Case, kind: Kind, predicted: &[String], timeout: Duration) 
         true,
         if case.tiny { Some(Duration::from_nanos(1)) } else { None },
     );
+    built.gate.lock().fail_others = case.fail_others;
     let mut r = Running {
         short: case.short,
         tiny: case.tiny,
@@ -1398,6 +1440,7 @@ fn run_trace(tc: &TraceCase) -> TraceOutcome {
     let built = build(tc.kind, tc.cap, Duration::from_micros(tc.interval_us), tc.backlog > 0);
     let gate = built.gate.clone();
     gate.slow_us.store(tc.slow_us, Ordering::Relaxed);
+    gate.lock().fail_others = tc.seed % 3 == 0;
     let n_flushers = tc.flushers.max(1);
     let start = Arc::new(std::sync::Barrier::new(tc.producers + n_flushers + 1));
     let mut rng = Rng::new(tc.seed);
@@ -1430,7 +1473,7 @@ fn run_trace(tc: &TraceCase) -> TraceOutcome {
             st.wait();
             for k in 0..per {
                 let id = p as u64 * 1_000_000 + k as u64;
-                let res = if r.below(100) < err_pct { if r.chance(1, 2) { Res::Validation } else { Res::Io } } else { Res::Ok };
+                let res = if r.below(100) < err_pct { if r.chance(1, 2) { Res::Validation } else { *r.pick(&IO_KINDS) } } else { Res::Ok };
                 let inv = g.tick();
                 h.append(IdEntry { id, res });
                 let ret = g.tick();
@@ -2522,7 +2565,7 @@ fn shrink_guided(args: &Args, case: &Case, kind: Kind, fails: impl Fn(&GuidedOut
         }
         let mut ops = vec![case.ops[0].clone()];
         ops.extend_from_slice(cand);
-        let c = Case { short: case.short, tiny: case.tiny, ops };
+        let c = Case { short: case.short, tiny: case.tiny, fail_others: case.fail_others, ops };
         if !c.valid() {
             return false;
         }
@@ -2538,7 +2581,7 @@ fn shrink_guided(args: &Args, case: &Case, kind: Kind, fails: impl Fn(&GuidedOut
     });
     let mut all = vec![case.ops[0].clone()];
     all.extend(ops);
-    Case { short: case.short, tiny: case.tiny, ops: all }.finished()
+    Case { short: case.short, tiny: case.tiny, fail_others: case.fail_others, ops: all }.finished()
 }
 
 fn first_diff(obs: &[String], pred: &[String]) -> Option<usize> {
